@@ -39,7 +39,17 @@ type Env struct {
 
 var pool = harness.NewPool(harness.Bin())
 
+// inprocExec, when set (native fuzz targets, built with -tags verif), serves the stateless commands
+// (parse, annot) inside the calling process so that Go's coverage guidance sees LuaHelper's code.
+var inprocExec func(req *proto.Request) *proto.Response
+
+// linesOnly: the caller wants only the stateless part of a check (no LSP session)
+var linesOnly bool
+
 func (e *Env) Exec(req *proto.Request) harness.Outcome {
+	if inprocExec != nil && (req.Cmd == "parse" || req.Cmd == "annot") {
+		return harness.Outcome{Resp: inprocExec(req)}
+	}
 	if e.Fresh {
 		return pool.ExecFresh(req)
 	}
